@@ -328,6 +328,14 @@ def r15_7(ctx: Ctx) -> None:
                     return isinstance(e, ast.Compare) and len(e.ops) == 1 and isinstance(e.ops[0], ast.NotEq) and any(
                         isinstance(x, ast.Attribute) and x.attr in ("consumed", "_unpacksizes", "unpacksizes", "packsize") for x in ast.walk(e))
                 looks = looks and all(shared.on_when(f, s_.value, differs) for s_ in sets)
+                # ... and a flag that is set STAYS set: a later call that fails cleanly (nothing consumed) must not clear it
+                def same_field(e: ast.AST, _sets=sets) -> bool:
+                    return isinstance(e, ast.Attribute) and any(norm(e) == norm(t) for s2 in _sets for t in s2.targets)
+                sticky = all(shared.on_when(f, s_.value, same_field) or (isinstance(s_.value, ast.Constant) and s_.value.value is True) for s_ in sets)
+                ctx.check(sticky or not sets, "R15.7", f, h, f"{name}: the session stays poisoned once a source failed midway",
+                          f"the handler around Worker.archive in {name} assigns the poison flag from this call alone (not `flag or ...`): a source that fails midway sets it, a later call that "
+                          "fails before anything is read (a missing file) clears it again, and close() writes a header over a packed stream that holds the bytes of no member",
+                          construct=f"{name} poison flag not sticky")
                 ctx.check(bool(sets) and looks, "R15.7", f, h, f"{name}: a source that failed midway poisons the session",
                           f"{name} rolls the registration back and re-raises also when the source failed after part of it had been compressed: those bytes stay in the packed "
                           "stream and in the folder's size, later writes and close() succeed and the archive is silently corrupt (members after the failure cannot be extracted). "
@@ -587,7 +595,36 @@ def r15_15(ctx: Ctx, rule: str = "R15.15") -> None:
                   "taken is held for untouched - close() completes and a member written after the failure does not extract", construct="consumed counts a later stage")
 
 
+def r15_16(ctx: Ctx, rule: str = "R15.16") -> None:
+    """the header an unfinished append session puts back is the header that was FOUND, in the form it was found: _restore_header_at_open
+    sets `header_encryption` from the snapshot's `was_encrypted` (unconditionally, before _write_header) - not from what the failed
+    session had asked for.  Otherwise a public archive comes back with its header encrypted under the failed session's password, or an
+    archive with encrypted names comes back with the names in the clear."""
+    try:
+        f = shared.szf(ctx, "_restore_header_at_open")
+    except Exception:
+        ctx.note(f"{rule}: no _restore_header_at_open (R15.10 decides the fallback)")
+        return
+    cfg = cfg_of(f.node)
+    wh = [c for c in q.calls(f) if attr_tail(c) == "_write_header"]
+    ctx.floor(rule, len(wh), 1, "_write_header call in _restore_header_at_open")
+    sets = [n for n in walk(f.node) if isinstance(n, ast.Assign) and norm(n.targets[0]) == "self.header_encryption"]
+    good = [n for n in sets if any(isinstance(x, ast.Attribute) and x.attr == "was_encrypted" for x in ast.walk(q.expand_locals(f, n.value)))
+            and not [cd for cd, pol in q.facts_at(f, n)] and all(cfg.dominates(q.node_for(f, n), q.node_for(f, c)) for c in wh)]
+    late = [n for n in sets if n not in good and any(cfg.reaches(q.node_for(f, g), q.node_for(f, n)) for g in good)]
+    ctx.check(bool(good) and not late, rule, f, (late or sets or [f.node])[0], "the restored header is encrypted exactly when the header found at open was",
+              "_restore_header_at_open writes the old header back in the header mode of the FAILED session (it does not set `header_encryption` from the snapshot's `was_encrypted` "
+              "before _write_header): after a failed append that had asked for header encryption a public archive can only be opened with that session's password; after one that had "
+              "switched it off the names of an encrypted archive lie in the clear", construct="restored header in the failed session's mode")
+    enc = [n for n in walk(f.node) if isinstance(n, ast.Assign) and norm(n.targets[0]) == "self.encoded_header_mode" and isinstance(n.value, ast.Constant) and n.value.value is True]
+    ok = any(any(pol and "header_encryption" in norm(cd) or pol and "was_encrypted" in norm(cd) for cd, pol in q.facts_at(f, n)) for n in enc)
+    ctx.check(ok, rule, f, enc[0] if enc else f.node, "an encrypted header is written back as an encoded header",
+              "_restore_header_at_open does not switch the encoded-header mode on when the restored header is to be encrypted: Header.write only encrypts an encoded header "
+              "(a session that had chosen a plain header would put the names back in the clear)", construct="restored encrypted header not encoded")
+
+
 def run(ctx: Ctx) -> None:
+    r15_16(ctx)
     r15_15(ctx)
     from . import c07 as _c07
     _c07.r07_8(ctx)  # a failed only-write of an append session leaves a folder without substreams: its count must be written
